@@ -9,8 +9,10 @@ CONSTANTS
   H = 40
   U = 0
   AlgVariant = "ok"
+  Cuts = {"none"}
   Export = TRUE
 INVARIANT ModelCovered
+INVARIANT AllNumWhenCovered
 INVARIANT ModelBetween
 INVARIANT FitsInv
 CONSTRAINT Emit
